@@ -14,9 +14,9 @@ import common
 from common import MachineryError, NCPU, WORK, printed, run_tlc, tlc_error_excerpt
 
 NODES = [f"n{i}" for i in range(1, 7)]
-LINKS = [f"l{i}" for i in range(1, 6)]
-ORIGS = ["o1", "o2", "r1", "r2"]
-DESTS = ["d1", "d2", "d3"]
+LINKS = [f"l{i}" for i in range(1, 7)]
+ORIGS = ["o1", "o2", "o3", "o4", "r1", "r2", "r3", "r4"]
+DESTS = ["d1", "d2", "d3", "d4"]
 LOOKUPS = ["nodes_by_name", "links_by_name", "nodes_by_link", "origins", "origins_by_name", "origins_by_node",
            "destinations", "destinations_by_name", "destinations_by_node"]
 
@@ -56,6 +56,61 @@ def rand_history(rng: random.Random, n: int):
     return calls
 
 
+def near_valid_history(rng: random.Random, shape: dict):
+    """a valid network enumerated by TLC (DynCases shapes), built through the API in random order (single calls, bulk
+    calls, paths), then perturbed by 0-2 further calls; validity is asked after the construction and after every
+    perturbation.  Near-valid graphs are where a single condition decides the verdict."""
+    n = shape["n"]
+    node = lambda a: f"n{a}"  # noqa: E731
+    steps = [["add_link", node(a), f"l{j + 1}", node(b)] for j, (a, b) in enumerate(shape["edges"])]
+    no, nr, nd = 0, 0, 0
+    for a in range(1, n + 1):
+        k = shape["orig"][a - 1]
+        if k == "ramp":
+            nr += 1
+            steps.append(["add_origin", f"r{nr}", node(a)])
+        elif k != "none":
+            no += 1
+            steps.append(["add_origin", f"o{2 * no - (1 if k == 'ideal' else 0)}" if 2 * no <= 4 else f"o{no}", node(a)])
+        if shape["dest"][a - 1] != "none":
+            nd += 1
+            steps.append(["add_destination", f"d{nd}", node(a)])
+    rng.shuffle(steps)
+    calls = []
+    i = 0
+    while i < len(steps):
+        st = steps[i]
+        if st[0] == "add_link" and rng.random() < 0.3:
+            o = next((x for x in steps[i + 1:] if x[0] == "add_origin" and x[2] == st[1]), None)
+            d = next((x for x in steps[i + 1:] if x[0] == "add_destination" and x[2] == st[3]), None)
+            if o:
+                steps.remove(o)
+            if d:
+                steps.remove(d)
+            calls.append(["add_path", [st[1], st[2], st[3]], o[1] if o else "", d[1] if d else ""])
+        elif st[0] == "add_link" and rng.random() < 0.2 and i + 1 < len(steps) and steps[i + 1][0] == "add_link":
+            calls.append(["add_links", [st[1:], steps[i + 1][1:]]])
+            i += 1
+        else:
+            calls.append(st)
+        i += 1
+    calls.append(["is_valid"])
+    used = [node(a) for a in range(1, n + 1)]
+    for _ in range(rng.randint(0, 2)):
+        x = rng.random()
+        pool = used + ([f"n{n + 1}"] if n < 6 and rng.random() < 0.25 else [])
+        if x < 0.45:
+            calls.append(["add_link", rng.choice(pool), rng.choice(LINKS[: len(shape["edges"]) + 2]), rng.choice(pool)])
+        elif x < 0.65:
+            calls.append(["add_origin", rng.choice(ORIGS), rng.choice(pool)])
+        elif x < 0.85:
+            calls.append(["add_destination", rng.choice(DESTS), rng.choice(pool)])
+        else:
+            calls.append(["add_node", rng.choice(pool)])
+        calls.append(["is_valid"])
+    return calls
+
+
 def _record(args):
     tid, calls = args
     import buildrun
@@ -87,9 +142,17 @@ def _record(args):
 def run(pid: str, tier: str) -> dict:
     import buildrun
     seed = common.seed()
-    ntr, length = (150, 25) if tier == "quick" else (3000, 40)
+    import dyncases
+    ntr, length, nshape = (600, 25, 600) if tier == "quick" else (6000, 40, 6000)
     rng = random.Random(seed * 104729 + 7)
     hist = [(f"h{seed}-{i}", rand_history(rng, rng.randint(3, length))) for i in range(ntr)]
+    shapes = []
+    for nm in ((3, 3), (4, 4)) if tier == "quick" else ((3, 3), (4, 4), (4, 5)):
+        sp, _ = dyncases.shapes(*nm)
+        shapes += [json.loads(l) for l in sp.open()]
+    shapes = [s_ for s_ in shapes if len(s_["edges"]) <= 6]
+    rng.shuffle(shapes)
+    hist += [(f"nv{seed}-{i}", near_valid_history(rng, shapes[i % len(shapes)])) for i in range(nshape)]
     ctx = mp.get_context("spawn")
     with ctx.Pool(min(NCPU, 8)) as pool:
         traces = pool.map(_record, hist, chunksize=16)
